@@ -162,6 +162,17 @@ def gen_history(r, start, n_ops, gated=(), allow_missing_reads=True):
                             created[r.choice(["status", "name", "template"])] = r.choice(["ON", "x", 5])
                             ops.append(["set-on-auto-created", list(path), k])
                             feats.add("read-missing-then-set")
+                elif y < 0.5:
+                    # reading a missing key INSIDE a key-value block (d["metadata"]["wms_title"] on a block that lacks it)
+                    kvs = [k for k, v in o.items() if isinstance(v, dict) and (k == "config" or k in vocab.kv_keys())]
+                    if kvs:
+                        k = r.choice(kvs)
+                        try:
+                            _ = o[k][r.choice(["wms_title", "zz", "ows_enable_request"])]
+                        except KeyError:
+                            pass
+                        ops.append(["read-missing-inside-key-value-block", list(path), k])
+                        feats.add("read-missing-inside-key-value-block")
                 elif y < 0.7:
                     lk = [k for k, (c, m) in vocab.child_slots(typ).items() if m == "list" and k not in o]
                     if lk:
